@@ -72,6 +72,18 @@ CLAIMED.update({
              'observed through query_table, query_csv (whose writer enforces the width) and pandas.',
         note='Partial: how an item TEXT is classified into its kind is Python ast / the JS span parser — tied by the correspondence, not modelled. Hypothesis RectangularSources (records as wide as their headers).',
         ref='DESIGN.md section 7, C07'),
+    'C09': dict(
+        text='C09_escape_unescape: for EVERY column name and both quote characters the generated literal evaluates back to the name (Python literal evaluation modelled for exactly the escapes RBQL can produce, tied to ast.literal_eval); '
+             'C09_binds_right_column for every set of distinct names; header-line theorems for the reader (Proofs/HeaderLine.lean when present). The real engine is checked directly: hostile headers x every position x '
+             'a["..."], a[\'...\'], repr, a.name, bare name x list/CSV/pandas/sqlite; header flag x WITH modifier x input/join.',
+        note='Partial: the regex-driven variable discovery (parse_dictionary_variables / parse_attribute_variables) is exercised, not modelled; names with an a.ident/b.ident token excluded (acknowledged limitation).',
+        ref='DESIGN.md section 7, C09'),
+    'C13': dict(
+        text='C13_engine_depends_on_records_only, C13_frontends_agree (any two faithful adapters), C13_csv_adapter_faithful_line/file (C10 + C12 composed), C13_cli_outcome (decision table of the command line). '
+             'The REAL entry points — query_table, query with user iterator/writer, query_csv, python -m rbql (file and stdin/stdout; out-format input/csv/tsv), pandas, sqlite + query_sqlite_to_csv — are run on the same '
+             'queries and data and compared; CLI exit status / stdout / stderr discipline on success, warnings and four error classes.',
+        note='Partial: pandas, sqlite3, argparse and the process boundary are third-party adapters assumed faithful in the theorem and tied only dynamically.',
+        ref='DESIGN.md section 7, C13'),
     'C10': dict(
         text='Line level: C10_line_roundtrip_quoted (every good delimiter, single- or multi-character; no field condition for one-character delimiters), simple and monocolumn round trips; '
              'file level: C10_file_lines_roundtrip for LF/CRLF/CR; lossy output warns (C10_lossy_simple_warns, C10_none_sets_flag); C10_overlap_counterexample shows why multi-character '
